@@ -83,6 +83,17 @@ pub fn make_tz(spec: &Spec) -> TimeZone {
             let bytes = zonegen::synth_tzif_footer(rule, so, sa, d_o, da);
             TimeZone::tzif(&format!("Footer/{i}"), &bytes).unwrap()
         }
+        // The harness points `TZ` at a TZif file before the first call (see
+        // `system_zone_setup`); if that did not work out, an ordinary zone
+        // stands in (all `System` handles are still the same zone).
+        Spec::System => match TimeZone::try_system() {
+            Ok(tz) if tz.iana_name().is_none() && !tz.is_unknown() => tz,
+            _ => {
+                let (rule, so, sa, d_o, da) = FOOTERS[0];
+                let bytes = zonegen::synth_tzif_footer(rule, so, sa, d_o, da);
+                TimeZone::tzif("Local/Standin", &bytes).unwrap()
+            }
+        },
         Spec::TzifBundled(i) => {
             let name = STATIC_NAMES[(i % N_STATIC) as usize];
             let (canonical, bytes) = jiff_tzdb::get(name).expect("bundled zone");
